@@ -5,6 +5,7 @@ import (
 	"encoding/json"
 	"fmt"
 	"math/rand"
+	"sort"
 	"strings"
 
 	"gopkg.in/typ.v4/slices"
@@ -141,7 +142,7 @@ func run(c *core.Ctx) {
 			}
 			exec(c, Case{Fn: pairSorts[c.Rng.Intn(4)], Less: less, Pairs: ps})
 		case k < 9:
-			slices.Sort(keys)
+			sort.Ints(keys) // the standard library, not the code under test
 			var t int
 			switch c.Rng.Intn(4) {
 			case 0:
